@@ -32,7 +32,10 @@ async fn echo(k: String, req: &Request) -> String {
                   one(req.headers.get("accept")), one(req.headers.get("x-req")), one(req.headers.get("X-Pad")), one(req.headers.get("content-length")), one(req.headers.get("Connection"))];
     // typed reading of the query as well: the iterator skips parts without `=`
     let qt = match req.query.parse::<std::collections::BTreeMap<String, String>>() { Ok(m) => format!("{m:?}"), Err(_) => "err".into() };
-    format!("k={k};m={};path={};q={:?};qt={qt};h=[{}];p={};ctx={}", req.method, req.path.str(), req.query.iter().collect::<Vec<_>>(), hs.join("|"),
+    // the address of the peer belongs to the connection, not to a request: whatever a request says about addresses (`Forwarded: for=..`) must not be
+    // what a later request on the connection sees (the loopback source addresses of the harness's own clients all count as "peer")
+    let ip = if req.ip.is_loopback() || req.ip.is_unspecified() { "peer".to_string() } else { req.ip.to_string() };
+    format!("k={k};m={};path={};q={:?};qt={qt};h=[{}];p={};ctx={};ip={ip}", req.method, req.path.str(), req.query.iter().collect::<Vec<_>>(), hs.join("|"),
             req.payload().map(digest).unwrap_or("none".into()), req.context.get::<Marker>().map(|m| m.0.clone()).unwrap_or("none".into()))
 }
 
@@ -60,6 +63,8 @@ pub fn concretise(k: usize, r: &Value, seed: u64) -> Conc {
     if bad { head.push_str(&format!("Authorization: Bearer secret-of-{k}\r\nX-Mark: bad{k}\r\nX-Leak: leak{k}\r\nCookie: sid=bad{k}\r\nthis line has no colon\r\n")) }
     if r["many"].as_bool().unwrap_or(false) && !bad { for j in 0..5 { head.push_str(&format!("X-M{j}: v{k}-{j}\r\n")) } }
     if r["mark"].as_bool().unwrap_or(false) { head.push_str(&format!("X-Mark: m{k}\r\n")) }
+    // some requests announce an address of their own (a proxy in front of the server would): it is this request's business only
+    if (k as u64 + seed) % 5 == 2 && !bad { head.push_str(&format!("Forwarded: for=192.0.2.{};proto=http\r\n", 1 + k % 200)) }
     // (connection options are case-insensitive, RFC 9110 7.6.1)
     if r["close"].as_bool().unwrap_or(false) { head.push_str(["Connection: close\r\n", "Connection: Close\r\n", "connection: CLOSE\r\n"][((k as u64 + seed / 3) % 3) as usize]) }
     if b > 0 { head.push_str(&format!("Content-Length: {}\r\n", b * CELL)) }
